@@ -63,13 +63,14 @@ def suffix_match(path, suffix):
 
 
 class Evaluator:
-    def __init__(self, crate, identity=None, inline=None, max_inline=4, keep_clone=False, extra_identity=()):
+    def __init__(self, crate, identity=None, inline=None, max_inline=4, keep_clone=False, extra_identity=(), named_lets=False):
         self.crate = crate
         self.identity = set(IDENTITY_CALLS if identity is None else identity) | set(extra_identity)
         if keep_clone:
             self.identity.discard("std::clone::Clone::clone")
         self.inline_pred = inline if inline is not None else default_inline
         self.max_inline = max_inline
+        self.named_lets = named_lets
         self._reassigned_cache = {}
 
     # ------------------------------------------------------------------
@@ -123,6 +124,10 @@ class Evaluator:
             return self.pat(p["pat"])
         if k == "Or":
             return ("por", tuple(self.pat(x) for x in p["pats"]))
+        if k == "PathPat":
+            if str(p.get("dk", "")).startswith("Ctor"):
+                return ("pctor", norm(p.get("ctor_of") or p.get("path")), (), None)
+            return ("plit", norm(p.get("path")) or p.get("txt", ""))
         if k == "Lit":
             return ("plit", p.get("str", ""))
         if k == "Range":
@@ -213,7 +218,11 @@ class Evaluator:
                 if "els" in st:
                     els = self.ev_Block(st["els"], env, ctx)
                     init = ("letelse", init, els)
-                self._bind(st["pat"], init, env, ctx["reassigned"])
+                bound = init
+                if self.named_lets and st["pat"]["k"] == "Binding" and has_effect(init) and ctx["depth"] == 0:
+                    # keep the identity of a value produced by a call: ('letv', id, name, init)
+                    bound = ("letv", st["pat"]["id"], st["pat"]["name"], init)
+                self._bind(st["pat"], bound, env, ctx["reassigned"])
                 stmts.append(("let", self.pat(st["pat"]), init))
             elif sk in ("Expr", "Semi"):
                 stmts.append(("semi", self.ev(st["e"], env, ctx)))
@@ -250,7 +259,7 @@ class Evaluator:
             return args[0]
         # bounded inlining of small local functions
         fn = self.crate.fns.get(callee)
-        if fn is not None and "hir" in fn and ctx["depth"] < self.max_inline and self.inline_pred(callee, fn):
+        if fn is not None and "hir" in fn and "trait_default" not in fn and ctx["depth"] < self.max_inline and self.inline_pred(callee, fn):
             if fn["npath"] != ctx["fn"]["npath"]:
                 return self.fn_term(fn, args=list(args), depth=ctx["depth"] + 1)
         return ("call", callee, tuple(args))
@@ -520,11 +529,13 @@ def _has_loop(n):
 
 def has_effect(t):
     """Conservative: a term that contains a call / assignment may have an effect."""
-    if not isinstance(t, tuple):
+    if not isinstance(t, tuple) or not t:
         return False
-    if t and t[0] in ("call", "callv", "assign", "assignop", "ret", "break", "continue", "try", "loop", "for", "while", "seq"):
-        return True
-    return any(has_effect(x) for x in t[1:] if isinstance(x, tuple))
+    if isinstance(t[0], str):
+        if t[0] in ("call", "callv", "assign", "assignop", "ret", "break", "continue", "try", "loop", "for", "while", "seq"):
+            return True
+        return any(has_effect(x) for x in t[1:] if isinstance(x, tuple))
+    return any(has_effect(x) for x in t if isinstance(x, tuple))
 
 
 # ----------------------------------------------------------------------
@@ -595,6 +606,8 @@ def unify(pat, t, b=None):
     if isinstance(pat, tuple) and len(pat) == 2 and pat[0] == "__path__":
         return b if isinstance(t, str) and suffix_match(t, pat[1]) else None
     if isinstance(pat, tuple):
+        if isinstance(t, tuple) and t and t[0] == "letv" and not (pat and pat[0] == "letv"):
+            return unify(pat, t[3], b)
         if not isinstance(t, tuple) or len(pat) != len(t):
             return None
         for p, x in zip(pat, t):
@@ -628,6 +641,8 @@ def show(t, depth=0, maxdepth=12):
         return "arg%d" % t[2]
     if k == "proj":
         return "%s.%s#%s" % (sh(t[1]), short(t[2]), t[3])
+    if k == "letv":
+        return "%s#%s" % (t[2], t[1])
     if k == "item":
         return "item(%s)" % sh(t[1])
     if k == "alt":
